@@ -358,7 +358,7 @@ impl<'a> Eval<'a> {
             }
             "CharList" => {
                 let inner = text.trim_matches('"');
-                if inner.contains('\\') || !inner.is_ascii() {
+                if inner.contains('\\') {
                     return Err(Stop::Undefined("text-literal-with-escapes"));
                 }
                 Ok(V::Text(inner.chars().collect()))
